@@ -1,83 +1,18 @@
-(* CCITTFax K = 0 (T.4 one-dimensional coding): code tables, runs, rows, images. *)
+(* CCITTFax K = 0 (T.4 one-dimensional coding): runs, rows, images. *)
 From Coq Require Import List NArith ZArith Bool Lia ZifyN ZifyNat ZifyBool Arith FMapPositive.
 From GoPdf.Base Require Import Bytes Res.
-From GoPdf.Gen Require Import Gen_C06ccitt.
-From GoPdf.C06 Require Import Machine MachineProofs CCITT.
+From GoPdf.C06 Require Import Machine MachineProofs CCITT CCITTTables.
 Import ListNotations.
 Open Scope N_scope.
 
-(* ---- the code tables ---- *)
 
-(* a code word: its bits and the decoder's (state, run length) for it *)
-Definition cword := (list bool * (N * N))%type.
-
-Definition nrange (n : nat) : list N := map N.of_nat (seq 0 n).
-
-Definition codes_of (white : bool) : list cword :=
-  map (fun n => (term_bits white n, (if white then st_termw else st_termb, n))) (nrange 64)
-  ++ map (fun i => (makeup_bits white i, (if white then st_makeupw else st_makeupb, 64 * (i + 1)))) (nrange 27)
-  ++ map (fun i => (ext_bits i, (st_makeup, 1792 + 64 * i))) (nrange 13)
-  ++ [(repeat false 11, (st_eol, 0))].
-
-Fixpoint is_prefix (a l : list bool) : bool :=
-  match a, l with
-  | [], _ => true
-  | x :: a', y :: l' => Bool.eqb x y && is_prefix a' l'
-  | _ :: _, [] => false
-  end.
-
-Fixpoint all_bits (n : nat) : list (list bool) :=
-  match n with
-  | O => [[]]
-  | S n' => map (cons false) (all_bits n') ++ map (cons true) (all_bits n')
-  end.
-
-Lemma all_bits_in : forall n l, length l = n -> In l (all_bits n).
-Proof.
-  induction n as [|n IH]; intros l H.
-  - destruct l; [left; reflexivity|discriminate].
-  - destruct l as [|b l]; [discriminate|]. cbn [all_bits]. apply in_or_app.
-    destruct b; [right|left]; apply in_map; apply IH; cbn in H; lia.
-Qed.
-
-(* no code word is a prefix of another one (T.4: the codes are a prefix code) *)
-Definition prefix_free (cs : list cword) : bool :=
-  forallb (fun ic => forallb (fun jc => Nat.eqb (fst ic) (fst jc) || negb (is_prefix (fst (snd ic)) (fst (snd jc))))
-                             (combine (seq 0 (length cs)) cs))
-          (combine (seq 0 (length cs)) cs).
-
-Lemma ccitt_prefix_free_check : prefix_free (codes_of true) && prefix_free (codes_of false) = true.
-Proof. vm_compute. reflexivity. Qed.
-
-(* the decoder's lookup tables (4096 / 8192 entries) are what the code words say *)
-Definition entry (white : bool) (l : list bool) : N * N * N :=
-  let v := num_of l 0 in
-  if white then (tget whiteW v, tget whiteS v, tget whiteP v) else (tget blackW v, tget blackS v, tget blackP v).
-
-Definition entry_is (e : N * N * N) (c : cword) : bool :=
-  let '(w, s, p) := e in
-  (w =? N.of_nat (length (fst c))) && (s =? fst (snd c)) && (p =? snd (snd c)).
-
-Definition window (white : bool) : nat := if white then 12%nat else 13%nat.
-
-Definition table_ok (white : bool) : bool :=
-  forallb (fun l =>
-    forallb (fun c => negb (is_prefix (fst c) l) || entry_is (entry white l) c) (codes_of white)
-    && (existsb (fun c => is_prefix (fst c) l) (codes_of white) || (fst (fst (entry white l)) =? 0)))
-    (all_bits (window white))
-  && forallb (fun c => Nat.leb 1 (length (fst c)) && Nat.leb (length (fst c)) (window white)) (codes_of white).
-
-Lemma ccitt_table_check : table_ok true && table_ok false = true.
-Proof. vm_compute. reflexivity. Qed.
-
-Global Opaque whiteW whiteS whiteP blackW blackS blackP.
+Local Transparent table_ok.
 
 Lemma table_code white c l : In c (codes_of white) -> length l = window white ->
   is_prefix (fst c) l = true ->
   entry white l = (N.of_nat (length (fst c)), fst (snd c), snd (snd c)).
 Proof.
-  intros Hc Hl Hp. pose proof ccitt_table_check as H. apply andb_true_iff in H.
-  assert (Ht : table_ok white = true) by (destruct white; tauto). clear H.
+  intros Hc Hl Hp. pose proof (table_ok_all white) as Ht.
   unfold table_ok in Ht. apply andb_true_iff in Ht as [Ht _]. rewrite forallb_forall in Ht.
   specialize (Ht l (all_bits_in _ l Hl)). apply andb_true_iff in Ht as [Ht _]. rewrite forallb_forall in Ht.
   specialize (Ht c Hc). rewrite Hp in Ht. cbn [negb orb] in Ht. unfold entry_is in Ht.
@@ -88,11 +23,12 @@ Qed.
 Lemma code_len white c : In c (codes_of white) ->
   (1 <= length (fst c))%nat /\ (length (fst c) <= window white)%nat.
 Proof.
-  intros Hc. pose proof ccitt_table_check as H. apply andb_true_iff in H.
-  assert (Ht : table_ok white = true) by (destruct white; tauto). clear H.
+  intros Hc. pose proof (table_ok_all white) as Ht.
   unfold table_ok in Ht. apply andb_true_iff in Ht as [_ Ht]. rewrite forallb_forall in Ht.
   specialize (Ht c Hc). apply andb_true_iff in Ht as [H1 H2]. apply Nat.leb_le in H1, H2. split; assumption.
 Qed.
+
+Global Opaque table_ok.
 
 Lemma is_prefix_app a t n : (length a <= n)%nat -> is_prefix a (firstn n (a ++ t)) = true.
 Proof.
@@ -107,7 +43,7 @@ Qed.
    only exists once the input is exhausted.  [real r rb]: the input bits still to come. *)
 Definition good (r : g3r) (rb : list bool) : Prop :=
   r_err r = None /\ r_buf r = rb ++ repeat false (r_pad r) /\
-  (r_eof r = false -> r_pad r = 0%nat) /\ (r_eof r = true -> r_rest r = []).
+  (r_eof r = false -> r_pad r = 0%nat) /\ (r_eof r = true -> r_rest r = []) /\ (r_pad r mod 8 = 0)%nat.
 
 Definition real (r : g3r) (rb : list bool) : list bool := rb ++ flat_map bits8 (r_rest r).
 
@@ -122,30 +58,24 @@ Proof.
   - exists rb. split; [assumption|]. split; [reflexivity|]. lia.
   - destruct (Nat.ltb (length (r_buf r)) n) eqn:E.
     2:{ exists rb. split; [assumption|]. split; [reflexivity|]. apply Nat.ltb_ge in E. lia. }
-    destruct G as (Ge & Gb & Gp & Gr). rewrite Ge.
+    destruct G as (Ge & Gb & Gp & Gr & Gm). rewrite Ge.
     destruct (r_eof r) eqn:Eeof.
     + (* already at the end: more padding *)
-      specialize (Gr eq_refl).
-      assert (Hm : (match r_rest r with
-                | [] | _ => fill fuel n {| r_buf := r_buf r ++ repeat false 8; r_rest := r_rest r; r_err := None;
-                                          r_eof := true; r_pad := r_pad r + 8 |} end) =
-              fill fuel n {| r_buf := r_buf r ++ repeat false 8; r_rest := r_rest r; r_err := None;
-                             r_eof := true; r_pad := r_pad r + 8 |}) by (destruct (r_rest r); reflexivity).
-      rewrite Hm. clear Hm.
-      destruct (IH n {| r_buf := r_buf r ++ repeat false 8; r_rest := r_rest r; r_err := None; r_eof := true;
+      specialize (Gr eq_refl). rewrite Gr.
+      destruct (IH n {| r_buf := r_buf r ++ repeat false 8; r_rest := []; r_err := None; r_eof := true;
                         r_pad := r_pad r + 8 |} rb) as (rb' & G' & R' & L').
       { unfold good; cbn [r_err r_buf r_eof r_pad r_rest]. split; [reflexivity|]. split.
         - rewrite Gb, <- app_assoc, <- repeat_app. reflexivity.
-        - split; [discriminate|intros _; assumption]. }
+        - split; [discriminate|]. split; [reflexivity|]. rewrite Nat.add_comm, <- Nat.add_mod_idemp_r, Gm by lia. reflexivity. }
       exists rb'. split; [assumption|]. split.
-      * rewrite R'. unfold real. cbn [r_rest]. reflexivity.
+      * rewrite R'. unfold real. cbn [r_rest]. rewrite Gr. reflexivity.
       * intros H. apply L'. cbn [r_buf]. rewrite app_length, repeat_length. lia.
     + specialize (Gp eq_refl). destruct (r_rest r) as [|b rest] eqn:Er.
       * destruct (IH n {| r_buf := r_buf r ++ repeat false 8; r_rest := []; r_err := None; r_eof := true;
                           r_pad := r_pad r + 8 |} rb) as (rb' & G' & R' & L').
         { unfold good; cbn [r_err r_buf r_eof r_pad r_rest]. split; [reflexivity|]. split.
           - rewrite Gb, <- app_assoc, <- repeat_app. reflexivity.
-          - split; [discriminate|reflexivity]. }
+          - split; [discriminate|]. split; [reflexivity|]. rewrite Gp. reflexivity. }
         exists rb'. split; [assumption|]. split.
         -- rewrite R'. unfold real. cbn [r_rest]. rewrite Er. reflexivity.
         -- intros H. apply L'. cbn [r_buf]. rewrite app_length, repeat_length. lia.
@@ -153,8 +83,857 @@ Proof.
                           r_pad := r_pad r |} (rb ++ bits8 b)) as (rb' & G' & R' & L').
         { unfold good; cbn [r_err r_buf r_eof r_pad r_rest]. split; [reflexivity|]. split.
           - rewrite Gb, Gp. cbn [repeat]. rewrite !app_nil_r. reflexivity.
-          - split; [intros _; assumption|discriminate]. }
+          - split; [intros _; assumption|]. split; [discriminate|]. rewrite Gp. reflexivity. }
         exists rb'. split; [assumption|]. split.
         -- rewrite R'. unfold real. cbn [r_rest]. rewrite Er. cbn [flat_map]. rewrite <- app_assoc. reflexivity.
         -- intros H. apply L'. cbn [r_buf]. rewrite app_length, bits8_length. lia.
+Qed.
+
+Lemma firstn_pad (a : list bool) n p q : (n <= length a + p)%nat -> (n <= length a + q)%nat ->
+  firstn n (a ++ repeat false p) = firstn n (a ++ repeat false q).
+Proof.
+  intros Hp Hq. rewrite !firstn_app. f_equal.
+  assert (H : forall k m, (k <= m)%nat -> firstn k (repeat false m) = repeat false k).
+  { induction k as [|k IHk]; intros [|m] Hk; cbn; try lia; try reflexivity. f_equal. apply IHk. lia. }
+  rewrite !H by lia. reflexivity.
+Qed.
+
+(* what the reader sees next: the real bits, then zeros for ever *)
+Lemma peek_good n r rb : good r rb -> (n <= 24)%nat ->
+  exists rb', fst (peek n r) = num_of (firstn n (real r rb ++ repeat false n)) 0 /\
+    good (snd (peek n r)) rb' /\ real (snd (peek n r)) rb' = real r rb.
+Proof.
+  intros G Hn. unfold peek. cbn [fst snd].
+  destruct (fill_good 4 n r rb G) as (rb' & G' & R' & L'). specialize (L' ltac:(lia)).
+  exists rb'. split; [|split; assumption]. f_equal. rewrite <- R'. unfold real.
+  destruct G' as (Ge & Gb & Gp & Gr & Gm). rewrite Gb in *. rewrite app_length, repeat_length in L'.
+  destruct (r_eof (fill 4 n r)) eqn:Eeof.
+  - rewrite (Gr eq_refl). cbn [flat_map]. rewrite app_nil_r. apply firstn_pad; lia.
+  - rewrite (Gp eq_refl) in *. cbn [repeat]. rewrite app_nil_r. rewrite Nat.add_0_r in L'.
+    rewrite <- app_assoc. rewrite (firstn_app n rb'). replace (n - length rb')%nat with 0%nat by lia.
+    cbn [firstn]. rewrite ?app_nil_r. reflexivity.
+Qed.
+
+Lemma consume_good n r rb : good r rb -> (n <= 24)%nat -> (n <= length (real r rb))%nat ->
+  exists rb', good (consume n r) rb' /\ real (consume n r) rb' = skipn n (real r rb).
+Proof.
+  intros G Hn Hr. unfold consume.
+  destruct (fill_good 4 n r rb G) as (rb' & G' & R' & L'). specialize (L' ltac:(lia)).
+  rewrite <- R' in *. clear R'. set (r' := fill 4 n r) in *.
+  destruct G' as (Ge & Gb & Gp & Gr & Gm). unfold real in *.
+  assert (Hrb : (n <= length rb')%nat).
+  { destruct (r_eof r') eqn:Eeof.
+    - rewrite (Gr eq_refl) in Hr. cbn [flat_map] in Hr. rewrite app_nil_r in Hr. assumption.
+    - rewrite (Gp eq_refl) in Gb. cbn [repeat] in Gb. rewrite app_nil_r in Gb. rewrite Gb in L'. assumption. }
+  assert (Hsk : skipn n (r_buf r') = skipn n rb' ++ repeat false (r_pad r')).
+  { rewrite Gb, skipn_app. replace (n - length rb')%nat with 0%nat by lia. reflexivity. }
+  replace (Nat.ltb (length (skipn n (r_buf r'))) (r_pad r')) with false.
+  2:{ symmetry. apply Nat.ltb_ge. rewrite Hsk, app_length, repeat_length. lia. }
+  exists (skipn n rb'). split.
+  - unfold good. cbn [r_err r_buf r_eof r_pad r_rest]. repeat split; assumption.
+  - cbn [r_rest]. rewrite skipn_app. replace (n - length rb')%nat with 0%nat by lia. reflexivity.
+Qed.
+
+(* one code word *)
+Lemma decode_run_code white c tail r rb :
+  In c (codes_of white) -> good r rb -> real r rb = fst c ++ tail ->
+  exists r' rb', decode_run white r = (snd (snd c), fst (snd c), r') /\ good r' rb' /\ real r' rb' = tail.
+Proof.
+  intros Hc G Hs. destruct (code_len white c Hc) as [L1 L2].
+  unfold decode_run.
+  assert (Hw : (window white <= 24)%nat) by (destruct white; cbn; lia).
+  destruct (peek_good (window white) r rb G Hw) as (rb1 & Pv & G1 & R1).
+  change (if white then 12%nat else 13%nat) with (window white).
+  destruct (peek (window white) r) as [v r1]. cbn [fst snd] in *.
+  pose proof (table_code white c (firstn (window white) (real r rb ++ repeat false (window white))) Hc) as Ht.
+  rewrite firstn_length_le in Ht by (rewrite app_length, repeat_length; lia). specialize (Ht eq_refl).
+  rewrite Hs, <- app_assoc in Ht. specialize (Ht (is_prefix_app _ _ _ L2)).
+  unfold entry in Ht. rewrite Hs, <- app_assoc in Pv. rewrite <- Pv in Ht.
+  assert (Hent : (if white then tget whiteW v else tget blackW v) = N.of_nat (length (fst c)) /\
+                 (if white then tget whiteS v else tget blackS v) = fst (snd c) /\
+                 (if white then tget whiteP v else tget blackP v) = snd (snd c)).
+  { destruct white; apply pair_equal_spec in Ht as [Ht1 Ht3]; apply pair_equal_spec in Ht1 as [Ht1 Ht2]; auto. }
+  destruct Hent as (E1 & E2 & E3). rewrite E1, E2, E3.
+  replace (N.of_nat (length (fst c)) =? 0) with false by lia.
+  rewrite Nat2N.id.
+  destruct (consume_good (length (fst c)) r1 rb1 G1 ltac:(lia)) as (rb2 & G2 & R2).
+  { rewrite R1, Hs, app_length. lia. }
+  exists (consume (length (fst c)) r1), rb2. split; [reflexivity|]. split; [assumption|].
+  rewrite R2, R1, Hs. rewrite skipn_app, skipn_all, Nat.sub_diag. reflexivity.
+Qed.
+
+Lemma wait_for_one_good : forall j fuel r rb tail, good r rb ->
+  real r rb = repeat false j ++ true :: tail -> (j < fuel)%nat ->
+  exists rb', good (wait_for_one fuel r) rb' /\ real (wait_for_one fuel r) rb' = tail.
+Proof.
+  induction j as [|j IH]; intros fuel r rb tail G Hs Hf; (destruct fuel as [|fuel]; [lia|]); cbn [wait_for_one];
+    rewrite (proj1 G);
+    destruct (peek_good 1 r rb G ltac:(lia)) as (rb1 & Pv & G1 & R1);
+    destruct (peek 1 r) as [v r1]; cbn [fst snd] in *;
+    (destruct (consume_good 1 r1 rb1 G1 ltac:(lia)) as (rb2 & G2 & R2); [rewrite R1, Hs; cbn; lia|]);
+    rewrite R1, Hs in R2; rewrite Hs in Pv; cbn [repeat app firstn num_of] in Pv.
+  - subst v. cbn. exists rb2. split; [assumption|]. rewrite R2. reflexivity.
+  - subst v. cbn [N.eqb N.mul N.add]. apply (IH fuel _ rb2 tail G2); [|lia]. rewrite R2. reflexivity.
+Qed.
+
+(* ---- codes of the tables ---- *)
+
+Lemma nrange_in n k : (N.to_nat k < n)%nat -> In k (nrange n).
+Proof. intros H. unfold nrange. apply in_map_iff. exists (N.to_nat k). split; [lia|]. apply in_seq. lia. Qed.
+
+Lemma term_in white n : n < 64 ->
+  In (term_bits white n, (if white then st_termw else st_termb, n)) (codes_of white).
+Proof.
+  intros H. unfold codes_of. apply in_or_app. left.
+  apply (in_map (fun n => (term_bits white n, (if white then st_termw else st_termb, n)))). apply nrange_in. lia.
+Qed.
+
+Lemma makeup_in white i : i < 27 ->
+  In (makeup_bits white i, (if white then st_makeupw else st_makeupb, 64 * (i + 1))) (codes_of white).
+Proof.
+  intros H. unfold codes_of. apply in_or_app. right. apply in_or_app. left.
+  apply (in_map (fun i => (makeup_bits white i, (if white then st_makeupw else st_makeupb, 64 * (i + 1))))).
+  apply nrange_in. lia.
+Qed.
+
+Lemma ext_in white i : i < 13 -> In (ext_bits i, (st_makeup, 1792 + 64 * i)) (codes_of white).
+Proof.
+  intros H. unfold codes_of. apply in_or_app. right. apply in_or_app. right. apply in_or_app. left.
+  apply (in_map (fun i => (ext_bits i, (st_makeup, 1792 + 64 * i)))). apply nrange_in. lia.
+Qed.
+
+Lemma eol_in white : In (repeat false 11, (st_eol, 0)) (codes_of white).
+Proof. unfold codes_of. apply in_or_app. right. apply in_or_app. right. apply in_or_app. right. left. reflexivity. Qed.
+
+(* ---- the line decoder, one code at a time ---- *)
+
+Definition pix (p : g3p) (white : bool) : bool := negb (Bool.eqb white (g_blackis1 p)).
+
+Lemma repeat_add {A} (x : A) a b l : repeat x a ++ repeat x b ++ l = repeat x (b + a) ++ l.
+Proof. rewrite app_assoc, <- repeat_app. f_equal. rewrite Nat.add_comm. reflexivity. Qed.
+
+Lemma line_code p white c tail r rb xpos ne pending line :
+  In c (codes_of white) -> good r rb -> real r rb = fst c ++ tail ->
+  (xpos < g_cols p \/ pending = true) -> xpos + snd (snd c) <= g_cols p ->
+  fst (snd c) <> st_eol ->
+  exists r' rb', good r' rb' /\ real r' rb' = tail /\
+    forall f, g3_line (S f) p xpos white ne pending line r =
+    g3_line f p (xpos + snd (snd c))
+      (if fst (snd c) =? st_termw then false else if fst (snd c) =? st_termb then true else white) ne
+      ((fst (snd c) =? st_makeupw) || (fst (snd c) =? st_makeupb) || (fst (snd c) =? st_makeup))
+      (repeat (pix p white) (N.to_nat (snd (snd c))) ++ line) r'.
+Proof.
+  intros Hc G Hs Hcont Hx Hne.
+  destruct (decode_run_code white c tail r rb Hc G Hs) as (r' & rb' & Hd & G' & R').
+  exists r', rb'. split; [assumption|]. split; [assumption|]. intros f.
+  cbn [g3_line]. rewrite (proj1 G).
+  replace ((xpos <? g_cols p) || pending) with true
+    by (symmetry; destruct Hcont as [H|H]; [lia|rewrite H; apply orb_true_r]).
+  cbn [andb]. rewrite Hd.
+  replace (N.min (snd (snd c)) (g_cols p - xpos)) with (snd (snd c)) by lia.
+  replace (fst (snd c) =? st_eol) with false by lia.
+  fold (pix p white).
+  destruct (fst (snd c) =? st_termw); [reflexivity|]. destruct (fst (snd c) =? st_termb); reflexivity.
+Qed.
+
+Lemma st_values : st_eol = 10 /\ st_termw = 5 /\ st_termb = 6 /\ st_makeupw = 7 /\ st_makeupb = 8 /\ st_makeup = 9.
+Proof. repeat split; reflexivity. Qed.
+
+Lemma rep_bits_length k l : length (rep_bits k l) = (k * length l)%nat.
+Proof. induction k as [|k IH]; cbn [rep_bits]; [reflexivity|]. rewrite app_length, IH. lia. Qed.
+
+(* make-up codes: the colour stays, the terminating code is still due *)
+Lemma line_makeup p white c tail r rb xpos ne pending line :
+  In c (codes_of white) -> good r rb -> real r rb = fst c ++ tail ->
+  (xpos < g_cols p \/ pending = true) -> xpos + snd (snd c) <= g_cols p ->
+  (fst (snd c) = st_makeupw \/ fst (snd c) = st_makeupb \/ fst (snd c) = st_makeup) ->
+  exists r' rb', good r' rb' /\ real r' rb' = tail /\
+    forall f, g3_line (S f) p xpos white ne pending line r =
+    g3_line f p (xpos + snd (snd c)) white ne true (repeat (pix p white) (N.to_nat (snd (snd c))) ++ line) r'.
+Proof.
+  intros Hc G Hs Hcont Hx Hst. destruct st_values as (V1 & V2 & V3 & V4 & V5 & V6).
+  destruct (line_code p white c tail r rb xpos ne pending line Hc G Hs Hcont Hx) as (r' & rb' & G' & R' & E).
+  { rewrite V1. lia. }
+  exists r', rb'. split; [assumption|]. split; [assumption|]. intros f. rewrite E.
+  replace (fst (snd c) =? st_termw) with false by lia. replace (fst (snd c) =? st_termb) with false by lia.
+  replace ((fst (snd c) =? st_makeupw) || (fst (snd c) =? st_makeupb) || (fst (snd c) =? st_makeup)) with true by lia.
+  reflexivity.
+Qed.
+
+Lemma line_term p white n tail r rb xpos ne pending line :
+  n < 64 -> good r rb -> real r rb = term_bits white n ++ tail ->
+  (xpos < g_cols p \/ pending = true) -> xpos + n <= g_cols p ->
+  exists r' rb', good r' rb' /\ real r' rb' = tail /\
+    forall f, g3_line (S f) p xpos white ne pending line r =
+    g3_line f p (xpos + n) (negb white) ne false (repeat (pix p white) (N.to_nat n) ++ line) r'.
+Proof.
+  intros Hn G Hs Hcont Hx. destruct st_values as (V1 & V2 & V3 & V4 & V5 & V6).
+  destruct (line_code p white _ tail r rb xpos ne pending line (term_in white n Hn) G Hs Hcont Hx) as (r' & rb' & G' & R' & E).
+  { cbn [fst snd]. destruct white; lia. }
+  exists r', rb'. split; [assumption|]. split; [assumption|]. intros f. rewrite E. cbn [fst snd].
+  destruct white.
+  - replace (st_termw =? st_termw) with true by lia.
+    replace ((st_termw =? st_makeupw) || (st_termw =? st_makeupb) || (st_termw =? st_makeup)) with false by lia. reflexivity.
+  - replace (st_termb =? st_termw) with false by lia. replace (st_termb =? st_termb) with true by lia.
+    replace ((st_termb =? st_makeupw) || (st_termb =? st_makeupb) || (st_termb =? st_makeup)) with false by lia. reflexivity.
+Qed.
+
+(* the 2560 make-up codes of a very long run *)
+Lemma line_big p white : forall k tail r rb xpos ne pending line,
+  good r rb -> real r rb = rep_bits k (ext_bits 12) ++ tail ->
+  (xpos < g_cols p \/ pending = true) -> xpos + 2560 * N.of_nat k <= g_cols p ->
+  exists r' rb', good r' rb' /\ real r' rb' = tail /\
+    forall f, g3_line (k + f) p xpos white ne pending line r =
+      g3_line f p (xpos + 2560 * N.of_nat k) white ne (match k with O => pending | _ => true end)
+        (repeat (pix p white) (N.to_nat (2560 * N.of_nat k)) ++ line) r'.
+Proof.
+  induction k as [|k IH]; intros tail r rb xpos ne pending line G Hs Hcont Hx.
+  - exists r, rb. split; [assumption|]. split; [exact Hs|]. intros f. cbn [Nat.add].
+    replace (xpos + 2560 * N.of_nat 0) with xpos by lia. reflexivity.
+  - cbn [rep_bits] in Hs. rewrite <- app_assoc in Hs.
+    destruct (line_makeup p white _ _ r rb xpos ne pending line (ext_in white 12 ltac:(lia)) G Hs Hcont) as (r1 & rb1 & G1 & R1 & E1).
+    { cbn [fst snd]. lia. } { right; right; reflexivity. }
+    cbn [fst snd] in *.
+    destruct (IH tail r1 rb1 (xpos + (1792 + 64 * 12)) ne true
+                 (repeat (pix p white) (N.to_nat (1792 + 64 * 12)) ++ line) G1 R1 (or_intror eq_refl)) as (r2 & rb2 & G2 & R2 & E2).
+    { lia. }
+    exists r2, rb2. split; [assumption|]. split; [assumption|]. intros f.
+    cbn [Nat.add]. rewrite E1, E2. rewrite repeat_add.
+    replace (xpos + (1792 + 64 * 12) + 2560 * N.of_nat k) with (xpos + 2560 * N.of_nat (S k)) by lia.
+    match goal with |- context [repeat _ ?n ++ line] =>
+      replace n with (N.to_nat (2560 * N.of_nat (S k))) by lia end.
+    destruct k; reflexivity.
+Qed.
+
+(* one run: [2560]* [1792..2496] [64..1728] terminating code *)
+Lemma line_run p white n tail r rb xpos ne pending line :
+  good r rb -> real r rb = run_bits white n ++ tail ->
+  (xpos < g_cols p \/ pending = true) -> xpos + n <= g_cols p ->
+  exists m r' rb', (m <= length (run_bits white n))%nat /\ good r' rb' /\ real r' rb' = tail /\
+    forall f, g3_line (m + f) p xpos white ne pending line r =
+      g3_line f p (xpos + n) (negb white) ne false (repeat (pix p white) (N.to_nat n) ++ line) r'.
+Proof.
+  intros G Hs Hcont Hx. unfold run_bits in *.
+  set (k := N.to_nat (n / 2560)) in *. set (n1 := n mod 2560) in *.
+  assert (Hn : n = 2560 * N.of_nat k + n1) by (subst k n1; pose proof (N.div_mod n 2560); lia).
+  assert (Hn1 : n1 < 2560) by (subst n1; apply N.mod_lt; discriminate).
+  clearbody k n1.
+  pose proof (proj1 (code_len white _ (ext_in white 12 ltac:(lia)))) as Lbig. cbn [fst] in Lbig.
+  destruct (1792 <=? n1) eqn:E1.
+  - (* extended make-up code, then the terminating code *)
+    set (i := (n1 - 1792) / 64) in *.
+    assert (Hi : i < 13) by (subst i; apply N.div_lt_upper_bound; lia).
+    assert (Hi2 : 64 * i <= n1 - 1792 < 64 * i + 64) by (subst i; pose proof (N.div_mod (n1 - 1792) 64); pose proof (N.mod_lt (n1 - 1792) 64); lia).
+    clearbody i.
+    replace (64 <=? n1 - (i + 28) * 64) with false in * by lia. cbn [app] in *.
+    rewrite <- !app_assoc in Hs.
+    destruct (line_big p white k _ r rb xpos ne pending line G Hs Hcont ltac:(lia)) as (r1 & rb1 & G1 & R1 & F1).
+    assert (Hc1 : xpos + 2560 * N.of_nat k < g_cols p \/ (match k with O => pending | _ => true end) = true).
+    { destruct k; [destruct Hcont; [left; lia|right; assumption]|right; reflexivity]. }
+    destruct (line_makeup p white _ _ r1 rb1 (xpos + 2560 * N.of_nat k) ne (match k with O => pending | _ => true end) (repeat (pix p white) (N.to_nat (2560 * N.of_nat k)) ++ line) (ext_in white i Hi) G1 R1 Hc1) as (r2 & rb2 & G2 & R2 & F2).
+    { cbn [fst snd]. lia. } { right; right; reflexivity. }
+    cbn [fst snd] in *.
+    destruct (line_term p white (n1 - (i + 28) * 64) tail r2 rb2 (xpos + 2560 * N.of_nat k + (1792 + 64 * i)) ne true (repeat (pix p white) (N.to_nat (1792 + 64 * i)) ++ repeat (pix p white) (N.to_nat (2560 * N.of_nat k)) ++ line) ltac:(lia) G2 R2 (or_intror eq_refl)) as (r3 & rb3 & G3 & R3 & F3).
+    { lia. }
+    pose proof (proj1 (code_len white _ (ext_in white i Hi))) as L2. cbn [fst] in L2.
+    pose proof (proj1 (code_len white _ (term_in white (n1 - (i + 28) * 64) ltac:(lia)))) as L3. cbn [fst] in L3.
+    exists (k + 2)%nat, r3, rb3. split; [|split; [assumption|split; [assumption|]]].
+    + rewrite !app_length, rep_bits_length. nia.
+    + intros f. replace (k + 2 + f)%nat with (k + S (S f))%nat by lia. rewrite F1, F2, F3.
+      rewrite !repeat_add.
+      replace (xpos + 2560 * N.of_nat k + (1792 + 64 * i) + (n1 - (i + 28) * 64)) with (xpos + n) by lia.
+      match goal with |- context [repeat _ ?a ++ line] => replace a with (N.to_nat n) by lia end. reflexivity.
+  - cbn [app] in *.
+    destruct (64 <=? n1) eqn:E2.
+    + (* make-up code, then the terminating code *)
+      set (i := n1 / 64 - 1) in *.
+      assert (Hq : 64 * (n1 / 64) <= n1 < 64 * (n1 / 64) + 64) by (pose proof (N.div_mod n1 64); pose proof (N.mod_lt n1 64); lia).
+      assert (Hi : i < 27) by (subst i; assert (n1 / 64 < 28) by (apply N.div_lt_upper_bound; lia); lia).
+      assert (Hi2 : 64 * (i + 1) = 64 * (n1 / 64)) by (subst i; lia).
+      assert (Hm : n1 mod 64 = n1 - 64 * (n1 / 64)) by (pose proof (N.div_mod n1 64); lia).
+      clearbody i. rewrite <- !app_assoc in Hs.
+      destruct (line_big p white k _ r rb xpos ne pending line G Hs Hcont ltac:(lia)) as (r1 & rb1 & G1 & R1 & F1).
+      assert (Hc1 : xpos + 2560 * N.of_nat k < g_cols p \/ (match k with O => pending | _ => true end) = true).
+      { destruct k; [destruct Hcont; [left; lia|right; assumption]|right; reflexivity]. }
+      destruct (line_makeup p white _ _ r1 rb1 (xpos + 2560 * N.of_nat k) ne (match k with O => pending | _ => true end) (repeat (pix p white) (N.to_nat (2560 * N.of_nat k)) ++ line) (makeup_in white i Hi) G1 R1 Hc1) as (r2 & rb2 & G2 & R2 & F2).
+      { cbn [fst snd]. lia. } { cbn [fst snd]. destruct white; [left|right; left]; reflexivity. }
+      cbn [fst snd] in *.
+      destruct (line_term p white (n1 mod 64) tail r2 rb2 (xpos + 2560 * N.of_nat k + 64 * (i + 1)) ne true (repeat (pix p white) (N.to_nat (64 * (i + 1))) ++ repeat (pix p white) (N.to_nat (2560 * N.of_nat k)) ++ line) ltac:(lia) G2 R2 (or_intror eq_refl)) as (r3 & rb3 & G3 & R3 & F3).
+      { lia. }
+      pose proof (proj1 (code_len white _ (makeup_in white i Hi))) as L2. cbn [fst] in L2.
+      pose proof (proj1 (code_len white _ (term_in white (n1 mod 64) ltac:(lia)))) as L3. cbn [fst] in L3.
+      exists (k + 2)%nat, r3, rb3. split; [|split; [assumption|split; [assumption|]]].
+      * rewrite !app_length, rep_bits_length. nia.
+      * intros f. replace (k + 2 + f)%nat with (k + S (S f))%nat by lia. rewrite F1, F2, F3.
+        rewrite !repeat_add.
+        replace (xpos + 2560 * N.of_nat k + 64 * (i + 1) + n1 mod 64) with (xpos + n) by lia.
+        match goal with |- context [repeat _ ?a ++ line] => replace a with (N.to_nat n) by lia end. reflexivity.
+    + (* terminating code only *)
+      cbn [app] in Hs. rewrite <- !app_assoc in Hs.
+      destruct (line_big p white k _ r rb xpos ne pending line G Hs Hcont ltac:(lia)) as (r1 & rb1 & G1 & R1 & F1).
+      assert (Hc1 : xpos + 2560 * N.of_nat k < g_cols p \/ (match k with O => pending | _ => true end) = true).
+      { destruct k; [destruct Hcont; [left; lia|right; assumption]|right; reflexivity]. }
+      destruct (line_term p white n1 tail r1 rb1 (xpos + 2560 * N.of_nat k) ne (match k with O => pending | _ => true end) (repeat (pix p white) (N.to_nat (2560 * N.of_nat k)) ++ line) ltac:(lia) G1 R1 Hc1) as (r3 & rb3 & G3 & R3 & F3).
+      { lia. }
+      pose proof (proj1 (code_len white _ (term_in white n1 ltac:(lia)))) as L3. cbn [fst] in L3.
+      exists (k + 1)%nat, r3, rb3. split; [|split; [assumption|split; [assumption|]]].
+      * rewrite !app_length, rep_bits_length. nia.
+      * intros f. replace (k + 1 + f)%nat with (k + S f)%nat by lia. rewrite F1, F3.
+        rewrite !repeat_add.
+        replace (xpos + 2560 * N.of_nat k + n1) with (xpos + n) by lia.
+        match goal with |- context [repeat _ ?a ++ line] => replace a with (N.to_nat n) by lia end. reflexivity.
+Qed.
+
+(* ---- a whole line ---- *)
+
+Fixpoint unruns (white : bool) (rs : list N) : list bool :=
+  match rs with
+  | [] => []
+  | n :: r => repeat white (N.to_nat n) ++ unruns (negb white) r
+  end.
+
+Fixpoint paint (p : g3p) (white : bool) (rs : list N) (line : list bool) : list bool :=
+  match rs with
+  | [] => line
+  | n :: r => paint p (negb white) r (repeat (pix p white) (N.to_nat n) ++ line)
+  end.
+
+Fixpoint nsum (rs : list N) : N := match rs with [] => 0 | n :: r => n + nsum r end.
+
+Lemma repeat_mid {A} (x : A) k l : repeat x k ++ x :: l = x :: repeat x k ++ l.
+Proof. induction k as [|k IH]; [reflexivity|]. cbn [repeat app]. rewrite IH. reflexivity. Qed.
+
+Lemma unruns_runs_of : forall px cur n, unruns cur (runs_of cur n px) = repeat cur (N.to_nat n) ++ px.
+Proof.
+  induction px as [|b px IH]; intros cur n; cbn [runs_of].
+  - cbn [unruns]. reflexivity.
+  - destruct (Bool.eqb b cur) eqn:E.
+    + apply eqb_prop in E. subst b. rewrite IH. replace (N.to_nat (n + 1)) with (S (N.to_nat n)) by lia.
+      cbn [repeat app]. rewrite repeat_mid. reflexivity.
+    + cbn [unruns]. rewrite IH. change (N.to_nat 1) with 1%nat. cbn [repeat app].
+      assert (b = negb cur) by (destruct b, cur; cbn in E; try discriminate; reflexivity). subst b. reflexivity.
+Qed.
+
+Lemma runs_of_pos : forall px cur n, 1 <= n -> Forall (fun k => 1 <= k) (runs_of cur n px).
+Proof.
+  induction px as [|b px IH]; intros cur n Hn; cbn [runs_of]; [constructor; [assumption|constructor]|].
+  destruct (Bool.eqb b cur); [apply IH; lia|constructor; [assumption|apply IH; lia]].
+Qed.
+
+Lemma runs_of_tl_pos : forall px cur n, Forall (fun k => 1 <= k) (tl (runs_of cur n px)).
+Proof.
+  induction px as [|b px IH]; intros cur n; cbn [runs_of]; [constructor|].
+  destruct (Bool.eqb b cur); [apply IH|cbn [tl]; apply runs_of_pos; lia].
+Qed.
+
+Lemma runs_of_sum : forall px cur n, nsum (runs_of cur n px) = n + N.of_nat (length px).
+Proof.
+  induction px as [|b px IH]; intros cur n; cbn [runs_of nsum length]; [lia|].
+  destruct (Bool.eqb b cur); [rewrite IH; lia|cbn [nsum]; rewrite IH; lia].
+Qed.
+
+Lemma runs_of_nonempty px cur n : runs_of cur n px <> [].
+Proof. revert cur n. induction px as [|b px IH]; intros cur n; cbn [runs_of]; [discriminate|]. destruct (Bool.eqb b cur); [apply IH|discriminate]. Qed.
+
+Lemma paint_unruns p : forall rs white line,
+  paint p white rs line = rev (map (pix p) (unruns white rs)) ++ line.
+Proof.
+  induction rs as [|n rs IH]; intros white line; cbn [paint unruns]; [reflexivity|].
+  rewrite IH, map_app, rev_app_distr, <- app_assoc. f_equal. f_equal.
+  clear. induction (N.to_nat n) as [|k IHk]; [reflexivity|].
+  cbn [repeat map rev]. rewrite <- IHk. apply repeat_cons.
+Qed.
+
+
+Lemma line_done p f ne line r : g3_line f p (g_cols p) true ne false line r = (line, r) /\
+  g3_line f p (g_cols p) false ne false line r = (line, r).
+Proof.
+  destruct f as [|f]; [split; reflexivity|]. cbn [g3_line].
+  replace (g_cols p <? g_cols p) with false by lia. cbn [orb andb]. split; reflexivity.
+Qed.
+
+Lemma line_runs p : forall rs white tail r rb xpos ne line,
+  good r rb -> real r rb = runs_bits white rs ++ tail -> rs <> [] ->
+  xpos < g_cols p -> xpos + nsum rs = g_cols p -> Forall (fun k => 1 <= k) (tl rs) ->
+  exists m r' rb', (m <= length (runs_bits white rs))%nat /\ good r' rb' /\ real r' rb' = tail /\
+    forall f, g3_line (m + f) p xpos white ne false line r = (paint p white rs line, r').
+Proof.
+  induction rs as [|n rs IH]; intros white tail r rb xpos ne line G Hs Hne Hx Hsum Htl; [congruence|].
+  cbn [runs_bits nsum tl] in *. rewrite <- app_assoc in Hs.
+  destruct (line_run p white n _ r rb xpos ne false line G Hs (or_introl Hx) ltac:(lia)) as (m1 & r1 & rb1 & L1 & G1 & R1 & F1).
+  destruct rs as [|n2 rs].
+  - cbn [runs_bits app nsum] in *. exists m1, r1, rb1. split; [rewrite app_nil_r; assumption|].
+    split; [assumption|]. split; [assumption|]. intros f. rewrite F1. cbn [paint].
+    replace (xpos + n) with (g_cols p) by lia. destruct (line_done p f ne (repeat (pix p white) (N.to_nat n) ++ line) r1) as [D1 D2].
+    destruct white; cbn [negb]; assumption.
+  - pose proof (Forall_inv Htl) as Hn2. cbn beta in Hn2.
+    destruct (IH (negb white) tail r1 rb1 (xpos + n) ne (repeat (pix p white) (N.to_nat n) ++ line) G1 R1 ltac:(discriminate)) as (m2 & r2 & rb2 & L2 & G2 & R2 & F2).
+    { cbn [nsum] in Hsum. lia. } { cbn [nsum] in *. lia. } { exact (Forall_inv_tail Htl). }
+    exists (m1 + m2)%nat, r2, rb2. split; [rewrite app_length; lia|]. split; [assumption|]. split; [assumption|].
+    intros f. rewrite <- Nat.add_assoc, F1, F2. reflexivity.
+Qed.
+
+(* an EOL code at the start of a line *)
+Lemma line_eol p tail r rb ne :
+  0 < g_cols p -> good r rb -> real r rb = eol_bits ++ tail ->
+  exists r' rb', good r' rb' /\ real r' rb' = tail /\
+    forall f, g3_line (S f) p 0 true ne false [] r =
+      if negb (g_ignore_eob p) && Nat.leb 6 (S ne) then ([], set_err r' EOF)
+      else g3_line f p 0 true (S ne) false [] r'.
+Proof.
+  intros Hcols G Hs. destruct st_values as (V1 & V2 & V3 & V4 & V5 & V6).
+  unfold eol_bits in Hs. rewrite <- app_assoc in Hs.
+  destruct (decode_run_code true _ _ r rb (eol_in true) G Hs) as (r1 & rb1 & Hd & G1 & R1).
+  cbn [fst snd app] in *.
+  destruct (wait_for_one_good 0 (S (bits_left r1)) r1 rb1 tail G1 R1 ltac:(lia)) as (rb2 & G2 & R2).
+  exists (wait_for_one (S (bits_left r1)) r1), rb2. split; [assumption|]. split; [assumption|]. intros f.
+  cbn [g3_line]. rewrite (proj1 G).
+  replace ((0 <? g_cols p) || false) with (0 <? g_cols p) by (destruct (0 <? g_cols p); reflexivity).
+  replace (0 <? g_cols p) with true by lia.
+  cbn [andb]. rewrite Hd.
+  replace (N.min 0 (g_cols p - 0)) with 0 by lia. cbn [N.to_nat repeat app].
+  replace (st_eol =? st_eol) with true by lia.
+  replace ((st_eol =? st_makeupw) || (st_eol =? st_makeupb) || (st_eol =? st_makeup)) with false by lia.
+  replace (0 + 0 =? 0) with true by reflexivity. reflexivity.
+Qed.
+
+(* return to control: six EOL codes end the data *)
+Lemma line_rtc p tail r rb :
+  0 < g_cols p -> g_ignore_eob p = false -> good r rb -> real r rb = rep_bits 6 eol_bits ++ tail ->
+  forall f, exists r', g3_line (6 + f) p 0 true 0 false [] r = ([], r') /\ r_err r' = Some EOF.
+Proof.
+  intros Hc Hi G Hs f. cbn [rep_bits] in Hs. rewrite <- !app_assoc in Hs. cbn [app] in Hs.
+  destruct (line_eol p _ r rb 0 Hc G Hs) as (r1 & rb1 & G1 & R1 & F1).
+  destruct (line_eol p _ r1 rb1 1 Hc G1 R1) as (r2 & rb2 & G2 & R2 & F2).
+  destruct (line_eol p _ r2 rb2 2 Hc G2 R2) as (r3 & rb3 & G3 & R3 & F3).
+  destruct (line_eol p _ r3 rb3 3 Hc G3 R3) as (r4 & rb4 & G4 & R4 & F4).
+  destruct (line_eol p _ r4 rb4 4 Hc G4 R4) as (r5 & rb5 & G5 & R5 & F5).
+  rewrite ?app_nil_r in R5.
+  destruct (line_eol p _ r5 rb5 5 Hc G5 R5) as (r6 & rb6 & G6 & R6 & F6).
+  exists (set_err r6 EOF). split; [|reflexivity].
+  change (6 + f)%nat with (S (S (S (S (S (S f)))))). rewrite F1, F2, F3, F4, F5, F6, Hi. reflexivity.
+Qed.
+
+(* consuming more than is there ends the data *)
+Lemma consume_past n r rb : good r rb -> (n <= 24)%nat -> (length (real r rb) < n)%nat ->
+  r_err (consume n r) = Some EOF.
+Proof.
+  intros G Hn Hr. unfold consume.
+  destruct (fill_good 4 n r rb G) as (rb' & G' & R' & L'). specialize (L' ltac:(lia)).
+  rewrite <- R' in *. clear R'. set (r' := fill 4 n r) in *.
+  destruct G' as (Ge & Gb & Gp & Gr & Gm). unfold real in *.
+  destruct (r_eof r') eqn:Eeof.
+  - rewrite (Gr eq_refl) in Hr. cbn [flat_map] in Hr. rewrite app_nil_r in Hr.
+    rewrite Gb in *. rewrite app_length, repeat_length in L'.
+    replace (Nat.ltb (length (skipn n (rb' ++ repeat false (r_pad r')))) (r_pad r')) with true.
+    + cbn [r_err]. rewrite Ge. reflexivity.
+    + symmetry. apply Nat.ltb_lt. rewrite skipn_length, app_length, repeat_length. lia.
+  - exfalso. rewrite (Gp eq_refl) in Gb. cbn [repeat] in Gb. rewrite app_nil_r in Gb. rewrite Gb in L'.
+    rewrite app_length in Hr. lia.
+Qed.
+
+(* nothing but a few zero bits left: end of data *)
+Lemma line_end p j r rb :
+  0 < g_cols p -> g_ignore_eob p = true -> good r rb -> real r rb = repeat false j -> (j < 11)%nat ->
+  forall f, exists r', g3_line (S (S f)) p 0 true 0 false [] r = ([], r') /\ r_err r' = Some EOF.
+Proof.
+  intros Hc Hi G Hs Hj f. destruct st_values as (V1 & V2 & V3 & V4 & V5 & V6).
+  cbn [g3_line]. rewrite (proj1 G). replace ((0 <? g_cols p) || false) with true by lia. cbn [andb].
+  unfold decode_run.
+  destruct (peek_good 12 r rb G ltac:(lia)) as (rb1 & Pv & G1 & R1).
+  destruct (peek 12 r) as [v r1]. cbn [fst snd] in *.
+  pose proof (table_code true _ (firstn 12 (real r rb ++ repeat false 12)) (eol_in true)) as Ht.
+  rewrite firstn_length_le in Ht by (rewrite app_length, repeat_length; lia). specialize (Ht eq_refl).
+  assert (Hz : firstn 12 (real r rb ++ repeat false 12) = repeat false 12).
+  { rewrite Hs, <- repeat_app.
+    assert (forall a b, firstn a (repeat false (a + b)) = repeat false a) as Hf
+      by (induction a; intros; cbn [Nat.add repeat firstn]; [reflexivity|f_equal; auto]).
+    replace (j + 12)%nat with (12 + j)%nat by lia. apply Hf. }
+  rewrite Hz in *. specialize (Ht eq_refl). unfold entry in Ht. rewrite <- Pv in Ht. cbn [fst snd length repeat] in Ht.
+  apply pair_equal_spec in Ht as [Ht1 Ht3]. apply pair_equal_spec in Ht1 as [Ht1 Ht2].
+  rewrite Ht1, Ht2, Ht3. change (N.of_nat 11 =? 0) with false. cbv iota. change (N.to_nat (N.of_nat 11)) with 11%nat.
+  assert (He : r_err (consume 11 r1) = Some EOF).
+  { apply (consume_past 11 r1 rb1 G1); [lia|]. rewrite R1, Hs, repeat_length. assumption. }
+  replace (N.min 0 (g_cols p - 0)) with 0 by lia. cbn [N.to_nat repeat app].
+  replace (st_eol =? st_eol) with true by lia.
+  replace (0 + 0 =? 0) with true by reflexivity. rewrite Hi. cbn [negb andb].
+  assert (Hw : forall fuel, wait_for_one fuel (consume 11 r1) = consume 11 r1).
+  { intros [|fuel]; cbn [wait_for_one]; [reflexivity|]. rewrite He. reflexivity. }
+  rewrite Hw. exists (consume 11 r1). split; [|assumption].
+  cbn [g3_line]. rewrite He.
+  match goal with |- (if ?c && false then _ else _) = _ => replace (c && false) with false by (symmetry; apply andb_false_r) end.
+  reflexivity.
+Qed.
+
+(* a whole encoded line (with its EOL code if EndOfLine is set) *)
+Lemma line_row p rs tail r rb :
+  0 < g_cols p -> good r rb ->
+  real r rb = (if g_eol p then eol_bits else []) ++ runs_bits true rs ++ tail ->
+  rs <> [] -> nsum rs = g_cols p -> Forall (fun k => 1 <= k) (tl rs) ->
+  exists m r' rb', (m <= length ((if g_eol p then eol_bits else []) ++ runs_bits true rs))%nat /\
+    good r' rb' /\ real r' rb' = tail /\
+    forall f, g3_line (m + f) p 0 true 0 false [] r = (paint p true rs [], r').
+Proof.
+  intros Hc G Hs Hne Hsum Htl. destruct (g_eol p).
+  - destruct (line_eol p _ r rb 0 Hc G Hs) as (r1 & rb1 & G1 & R1 & F1).
+    destruct (line_runs p rs true tail r1 rb1 0 1 [] G1 R1 Hne Hc ltac:(lia) Htl) as (m & r2 & rb2 & L2 & G2 & R2 & F2).
+    exists (S m), r2, rb2. split; [rewrite app_length; cbn; lia|]. split; [assumption|]. split; [assumption|].
+    intros f. cbn [Nat.add]. rewrite F1. change (Nat.leb 6 1) with false. rewrite andb_false_r.
+    apply F2.
+  - cbn [app] in Hs.
+    destruct (line_runs p rs true tail r rb 0 0 [] G Hs Hne Hc ltac:(lia) Htl) as (m & r2 & rb2 & L2 & G2 & R2 & F2).
+    exists m, r2, rb2. split; [assumption|]. split; [assumption|]. split; assumption.
+Qed.
+
+(* ---- packing bits into bytes ---- *)
+
+Lemma list8_ind (P : list bool -> Prop) :
+  (forall l, (length l < 8)%nat -> P l) ->
+  (forall a b c d e f g h r, P r -> P (a :: b :: c :: d :: e :: f :: g :: h :: r)) ->
+  forall l, P l.
+Proof.
+  intros Hs Hc. fix IH 1. intros l.
+  destruct l as [|a [|b [|c [|d [|e [|f [|g [|h r]]]]]]]]; try (apply Hs; cbn; lia).
+  apply Hc. apply IH.
+Qed.
+
+Definition bits8_ok : bool :=
+  forallb (fun l => match bits8 (num_of l 0), l with
+                    | [a; b; c; d; e; f; g; h], [a'; b'; c'; d'; e'; f'; g'; h'] =>
+                      Bool.eqb a a' && Bool.eqb b b' && Bool.eqb c c' && Bool.eqb d d' &&
+                      Bool.eqb e e' && Bool.eqb f f' && Bool.eqb g g' && Bool.eqb h h' && (num_of l 0 <? 256)
+                    | _, _ => false end) (all_bits 8).
+Lemma bits8_ok_check : bits8_ok = true.
+Proof. vm_compute. reflexivity. Qed.
+
+Lemma bits8_num_of a b c d e f g h :
+  bits8 (num_of [a; b; c; d; e; f; g; h] 0) = [a; b; c; d; e; f; g; h] /\ num_of [a; b; c; d; e; f; g; h] 0 < 256.
+Proof.
+  pose proof bits8_ok_check as H. unfold bits8_ok in H. rewrite forallb_forall in H.
+  specialize (H [a; b; c; d; e; f; g; h] (all_bits_in 8 [a; b; c; d; e; f; g; h] eq_refl)).
+  destruct (bits8 (num_of [a; b; c; d; e; f; g; h] 0)) as [|a' [|b' [|c' [|d' [|e' [|f' [|g' [|h' [|x t]]]]]]]]]; try discriminate.
+  repeat (apply andb_true_iff in H as [H ?]).
+  repeat match goal with E : Bool.eqb _ _ = true |- _ => apply eqb_prop in E end. subst.
+  split; [reflexivity|lia].
+Qed.
+
+Definition byte_bits_ok : bool := forallb (fun b => num_of (bits8 b) 0 =? b) (map N.of_nat (seq 0 256)).
+Lemma byte_bits_ok_check : byte_bits_ok = true.
+Proof. vm_compute. reflexivity. Qed.
+
+Lemma num_of_bits8 b : b < 256 -> num_of (bits8 b) 0 = b.
+Proof.
+  intros H. pose proof byte_bits_ok_check as Hc. unfold byte_bits_ok in Hc. rewrite forallb_forall in Hc.
+  apply N.eqb_eq. apply Hc. apply in_map_iff. exists (N.to_nat b). split; [lia|]. apply in_seq. lia.
+Qed.
+
+Lemma pack_full_spec : forall l, flat_map bits8 (fst (pack_full l)) ++ snd (pack_full l) = l /\
+  (length (snd (pack_full l)) < 8)%nat /\ length (snd (pack_full l)) = (length l mod 8)%nat.
+Proof.
+  induction l as [l Hl|a b c d e f g h r IH] using list8_ind.
+  - assert (E : pack_full l = ([], l)).
+    { destruct l as [|a [|b [|c [|d [|e [|f [|g [|h r]]]]]]]]; try reflexivity. cbn in Hl. lia. }
+    rewrite E. cbn [fst snd flat_map app]. split; [reflexivity|]. split; [assumption|]. symmetry. apply Nat.mod_small. assumption.
+  - cbn [pack_full]. destruct (pack_full r) as [bs rest]. cbn [fst snd] in *. destruct IH as (I1 & I2 & I3).
+    cbn [flat_map]. rewrite (proj1 (bits8_num_of a b c d e f g h)). cbn [app]. rewrite I1. split; [reflexivity|]. split; [assumption|].
+    rewrite I3. cbn [length]. replace (S (S (S (S (S (S (S (S (length r)))))))))%nat with (length r + 1 * 8)%nat by lia.
+    rewrite Nat.mod_add by lia. reflexivity.
+Qed.
+
+Lemma pack_bits_full : forall l x, pack_bits (l ++ x) = fst (pack_full l) ++ pack_bits (snd (pack_full l) ++ x).
+Proof.
+  induction l as [l Hl|a b c d e f g h r IH] using list8_ind; intros x.
+  - assert (E : pack_full l = ([], l)).
+    { destruct l as [|a [|b [|c [|d [|e [|f [|g [|h r]]]]]]]]; try reflexivity. cbn in Hl. lia. }
+    rewrite E. reflexivity.
+  - cbn [pack_full app pack_bits]. destruct (pack_full r) as [bs rest] eqn:E. cbn [fst snd app].
+    f_equal. specialize (IH x). rewrite ?E in IH. exact IH.
+Qed.
+
+Lemma pack_bits_bytes : forall bs, Forall (fun b => b < 256) bs -> pack_bits (flat_map bits8 bs) = bs.
+Proof.
+  induction 1 as [|b bs Hb Hbs IH]; [reflexivity|]. cbn [flat_map].
+  change (bits8 b) with (bits_of 8 b) at 1. cbn [bits_of]. cbn [app pack_bits].
+  f_equal; [|exact IH]. apply (num_of_bits8 b Hb).
+Qed.
+
+Lemma pack_bits_pad : forall l, pack_bits (pad_to_byte l) = pack_bits l.
+Proof.
+  induction l as [l Hl|a b c d e f g h r IH] using list8_ind.
+  - unfold pad_to_byte. rewrite (Nat.mod_small (length l) 8 Hl).
+    destruct l as [|a [|b [|c [|d [|e [|f [|g [|h r]]]]]]]]; try reflexivity. cbn in Hl. lia.
+  - unfold pad_to_byte in *. cbn [length].
+    replace (S (S (S (S (S (S (S (S (length r)))))))) mod 8)%nat with (length r mod 8)%nat
+      by (replace (S (S (S (S (S (S (S (S (length r)))))))))%nat with (length r + 1 * 8)%nat by lia; rewrite Nat.mod_add by lia; reflexivity).
+    cbn [app pack_bits]. rewrite IH. reflexivity.
+Qed.
+
+Lemma pack_bits_spec : forall l, flat_map bits8 (pack_bits l) = pad_to_byte l.
+Proof.
+  induction l as [l Hl|a b c d e f g h r IH] using list8_ind.
+  - unfold pad_to_byte. rewrite (Nat.mod_small (length l) 8 Hl).
+    destruct l as [|a [|b [|c [|d [|e [|f [|g [|h r]]]]]]]]; try (cbn in Hl; lia); try reflexivity;
+      cbn [pack_bits app firstn repeat flat_map length Nat.sub Nat.modulo];
+      rewrite (proj1 (bits8_num_of _ _ _ _ _ _ _ _)); reflexivity.
+  - unfold pad_to_byte in *. cbn [length].
+    replace (S (S (S (S (S (S (S (S (length r)))))))) mod 8)%nat with (length r mod 8)%nat
+      by (replace (S (S (S (S (S (S (S (S (length r)))))))))%nat with (length r + 1 * 8)%nat by lia; rewrite Nat.mod_add by lia; reflexivity).
+    cbn [pack_bits flat_map app]. rewrite (proj1 (bits8_num_of a b c d e f g h)). cbn [app]. rewrite IH. reflexivity.
+Qed.
+
+(* ---- the encoder's bit stream ---- *)
+
+Definition chunk (p : g3p) (row : bytes) : list bool :=
+  if g_align p then pad_to_byte (row_bits p row) else row_bits p row.
+Definition close_bits (p : g3p) : list bool := if g_ignore_eob p then [] else rep_bits 6 eol_bits.
+Definition img_bits (p : g3p) (rows : list bytes) : list bool := flat_map (chunk p) rows ++ close_bits p.
+
+Lemma pad_to_byte_mod l : (length (pad_to_byte l) mod 8 = 0)%nat.
+Proof.
+  unfold pad_to_byte. rewrite app_length, repeat_length.
+  pose proof (Nat.div_mod (length l) 8 ltac:(lia)) as H. pose proof (Nat.mod_upper_bound (length l) 8 ltac:(lia)) as H2.
+  destruct (Nat.eq_dec (length l mod 8) 0) as [E|E].
+  - rewrite E. cbn. rewrite Nat.add_0_r. assumption.
+  - rewrite (Nat.mod_small (8 - length l mod 8) 8) by lia.
+    replace (length l + (8 - length l mod 8))%nat with ((length l / 8 + 1) * 8)%nat by lia. apply Nat.mod_mul. lia.
+Qed.
+
+Lemma enc_fold p : forall rows pend, (g_align p = true -> pend = []) ->
+  (g_align p = true -> fst (rows_fold (g3_enc_row p) pend rows) = []) /\
+  forall c, snd (rows_fold (g3_enc_row p) pend rows) ++ pack_bits (fst (rows_fold (g3_enc_row p) pend rows) ++ c) =
+            pack_bits (pend ++ flat_map (chunk p) rows ++ c).
+Proof.
+  induction rows as [|row rows IH]; intros pend Hp.
+  - cbn [rows_fold fst snd flat_map app]. split; [assumption|reflexivity].
+  - cbn [rows_fold]. unfold g3_enc_row at 1 3 5.
+    set (bits' := if g_align p then pad_to_byte (pend ++ row_bits p row) else pend ++ row_bits p row).
+    assert (Hb : bits' = pend ++ chunk p row).
+    { subst bits'. unfold chunk. destruct (g_align p); [rewrite (Hp eq_refl)|]; reflexivity. }
+    pose proof (pack_full_spec bits') as (S1 & S2 & S3). pose proof (pack_bits_full bits') as PF.
+    destruct (pack_full bits') as [bs rest]. cbn [fst snd] in *.
+    assert (Hr : g_align p = true -> rest = []).
+    { intros Ha. subst bits'. rewrite Ha in S3. rewrite pad_to_byte_mod in S3. destruct rest; [reflexivity|discriminate]. }
+    specialize (IH rest Hr). destruct (rows_fold (g3_enc_row p) rest rows) as [pend' out]. cbn [fst snd] in *.
+    destruct IH as [I1 I2]. split; [assumption|]. intros c. rewrite <- app_assoc, I2.
+    cbn [flat_map]. rewrite <- (PF (flat_map (chunk p) rows ++ c)), Hb, <- !app_assoc. reflexivity.
+Qed.
+
+(* ---- pixels of a row ---- *)
+
+Definition row_ok (p : g3p) (row : bytes) : Prop :=
+  length row = line_bytes p /\ Forall (fun b => b < 256) row /\
+  skipn (N.to_nat (g_cols p)) (flat_map bits8 row) = repeat false (8 * line_bytes p - N.to_nat (g_cols p)).
+
+Lemma pix_white p b : pix p (Bool.eqb b (negb (g_blackis1 p))) = b.
+Proof. unfold pix. destruct b, (g_blackis1 p); reflexivity. Qed.
+
+Lemma flat_bits_length bs : length (flat_map bits8 bs) = (8 * length bs)%nat.
+Proof. induction bs as [|b bs IH]; [reflexivity|]. cbn [flat_map length]. rewrite app_length, IH. cbn. lia. Qed.
+
+Lemma row_rebuilt p row : 0 < g_cols p -> row_ok p row ->
+  pack_bits (rev_append (paint p true (runs_of true 0 (row_pixels p row)) []) []) = row /\
+  paint p true (runs_of true 0 (row_pixels p row)) [] <> [].
+Proof.
+  intros Hc (Hl & Hwf & Hz).
+  rewrite rev_append_rev, app_nil_r, paint_unruns, app_nil_r, rev_involutive, unruns_runs_of.
+  cbn [N.to_nat repeat app]. unfold row_pixels. rewrite map_map.
+  assert (Hm : forall l, map (fun x => pix p (Bool.eqb x (negb (g_blackis1 p)))) l = l).
+  { induction l as [|x l IHl]; [reflexivity|]. cbn [map]. rewrite pix_white, IHl. reflexivity. }
+  rewrite Hm.
+  set (all := flat_map bits8 row) in *. set (n := N.to_nat (g_cols p)) in *.
+  assert (Hall : length all = (8 * line_bytes p)%nat) by (subst all; rewrite flat_bits_length, Hl; reflexivity).
+  assert (Hlb : (n <= 8 * line_bytes p)%nat /\ (8 * line_bytes p - n < 8)%nat).
+  { unfold line_bytes. subst n. pose proof (N.div_mod (g_cols p + 7) 8 ltac:(lia)). pose proof (N.mod_lt (g_cols p + 7) 8 ltac:(lia)). lia. }
+  split.
+  - rewrite <- pack_bits_pad. unfold pad_to_byte. rewrite firstn_length_le by lia.
+    replace ((8 - n mod 8) mod 8)%nat with (8 * line_bytes p - n)%nat.
+    + rewrite <- Hz, firstn_skipn. apply pack_bits_bytes. assumption.
+    + destruct Hlb as [H1 H2]. set (k := (8 * line_bytes p - n)%nat) in *.
+      assert (Hn : n = (8 * line_bytes p - k)%nat) by lia.
+      destruct (Nat.eq_dec k 0) as [E|E].
+      * rewrite E in *. replace n with (line_bytes p * 8)%nat by lia. rewrite Nat.mod_mul by lia. reflexivity.
+      * assert (Hlp : (1 <= line_bytes p)%nat) by lia.
+        replace n with ((8 - k) + (line_bytes p - 1) * 8)%nat by lia. rewrite Nat.mod_add by lia.
+        rewrite (Nat.mod_small (8 - k) 8) by lia. replace (8 - (8 - k))%nat with k by lia. symmetry. apply Nat.mod_small. lia.
+  - intros Hcontra. apply (f_equal (@length bool)) in Hcontra. rewrite rev_length, firstn_length_le in Hcontra by lia.
+    cbn in Hcontra. lia.
+Qed.
+
+(* ---- whole images ---- *)
+
+Lemma buf_real_mod r rb : good r rb -> (length (r_buf r) mod 8 = length (real r rb) mod 8)%nat.
+Proof.
+  intros (Ge & Gb & Gp & Gr & Gm). unfold real. rewrite Gb, !app_length, repeat_length, flat_bits_length.
+  rewrite <- (Nat.add_mod_idemp_r (length rb) (r_pad r)) by lia. rewrite Gm, Nat.add_0_r.
+  rewrite (Nat.mul_comm 8), Nat.mod_add by lia. reflexivity.
+Qed.
+
+Lemma real_le_bits_left r rb : good r rb -> (length (real r rb) <= bits_left r)%nat.
+Proof.
+  intros (Ge & Gb & Gp & Gr & Gm). unfold real, bits_left. rewrite Gb, !app_length, flat_bits_length. lia.
+Qed.
+
+Lemma row_bits_runs p row : 0 < g_cols p -> row_ok p row ->
+  let rs := runs_of true 0 (row_pixels p row) in
+  rs <> [] /\ nsum rs = g_cols p /\ Forall (fun k => 1 <= k) (tl rs).
+Proof.
+  intros Hc (Hl & Hwf & Hz). cbv zeta. split; [apply runs_of_nonempty|]. split; [|apply runs_of_tl_pos].
+  rewrite runs_of_sum. unfold row_pixels. rewrite map_length, firstn_length_le; [lia|].
+  rewrite flat_bits_length, Hl. unfold line_bytes.
+  pose proof (N.div_mod (g_cols p + 7) 8 ltac:(lia)). pose proof (N.mod_lt (g_cols p + 7) 8 ltac:(lia)). lia.
+Qed.
+
+Lemma g3_rows_rt p (Hc : 0 < g_cols p) : forall rows nrows fuel r rb q j,
+  good r rb -> real r rb = repeat false q ++ img_bits p rows ++ repeat false j ->
+  (g_align p = true -> (q < 8)%nat /\ ((length (img_bits p rows) + j) mod 8 = 0)%nat) ->
+  (g_align p = false -> q = 0%nat) -> (j < 8)%nat ->
+  (g_maxrows p = 0%nat \/ (nrows + length rows <= g_maxrows p)%nat) ->
+  Forall (row_ok p) rows -> (length rows + 1 < fuel)%nat ->
+  g3_rows fuel p nrows r = (concat rows, Some EOF).
+Proof.
+  induction rows as [|row rows IH]; intros nrows fuel r rb q j G Hs Ha Hna Hj Hmax Hok Hf;
+    (destruct fuel as [|fuel]; [lia|]); cbn [g3_rows]; rewrite (proj1 G).
+  - (* after the last row *)
+    destruct (negb (Nat.eqb (g_maxrows p) 0) && Nat.leb (g_maxrows p) nrows) eqn:Em; [reflexivity|].
+    unfold img_bits in Hs. cbn [flat_map app] in Hs.
+    assert (Hskip : exists r0 rb0, (if g_align p then consume (length (r_buf r) mod 8) r else r) = r0 /\
+              good r0 rb0 /\ real r0 rb0 = close_bits p ++ repeat false j).
+    { destruct (g_align p) eqn:Eal.
+      - destruct (Ha eq_refl) as [Hq Hm]. unfold img_bits in Hm. cbn [flat_map app] in Hm.
+        assert (Hmod : (length (r_buf r) mod 8 = q)%nat).
+        { rewrite (buf_real_mod r rb G), Hs, !app_length, !repeat_length.
+          rewrite <- Nat.add_mod_idemp_r, Hm, Nat.add_0_r by lia. apply Nat.mod_small. assumption. }
+        rewrite Hmod. destruct (consume_good q r rb G ltac:(lia)) as (rb0 & G0 & R0).
+        { rewrite Hs, app_length, repeat_length. lia. }
+        exists (consume q r), rb0. split; [reflexivity|]. split; [assumption|].
+        rewrite R0, Hs, skipn_app, repeat_length, Nat.sub_diag. rewrite skipn_all2 by (rewrite repeat_length; lia). reflexivity.
+      - rewrite (Hna eq_refl) in Hs. exists r, rb. split; [reflexivity|]. split; [assumption|exact Hs]. }
+    destruct Hskip as (r0 & rb0 & -> & G0 & R0).
+    unfold close_bits in R0. destruct (g_ignore_eob p) eqn:Ei.
+    + cbn [app] in R0. destruct (line_end p j r0 rb0 Hc Ei G0 R0 ltac:(lia) (bits_left r0)) as (r' & E' & Er').
+      rewrite E', Er'. reflexivity.
+    + pose proof (real_le_bits_left r0 rb0 G0) as Hbl. rewrite R0, app_length, rep_bits_length in Hbl.
+      change (length eol_bits) with 12%nat in Hbl.
+      destruct (line_rtc p _ r0 rb0 Hc Ei G0 R0 (S (S (bits_left r0)) - 6)) as (r' & E' & Er').
+      replace (6 + (S (S (bits_left r0)) - 6))%nat with (S (S (bits_left r0))) in E' by lia.
+      rewrite E', Er'. reflexivity.
+  - (* one more row *)
+    pose proof (Forall_inv Hok) as Hrow. pose proof (Forall_inv_tail Hok) as Hok'.
+    replace (negb (Nat.eqb (g_maxrows p) 0) && Nat.leb (g_maxrows p) nrows) with false.
+    2:{ symmetry. cbn [length] in Hmax. destruct Hmax as [-> | Hm]; [reflexivity|].
+        apply andb_false_iff. right. apply Nat.leb_gt. lia. }
+    unfold img_bits in Hs. cbn [flat_map] in Hs. rewrite <- !app_assoc in Hs.
+    fold (img_bits p rows) in Hs.
+    assert (Hchunk : chunk p row ++ img_bits p rows = chunk p row ++ flat_map (chunk p) rows ++ close_bits p) by reflexivity.
+    (* skip the fill bits *)
+    assert (Hskip : exists r0 rb0, (if g_align p then consume (length (r_buf r) mod 8) r else r) = r0 /\
+              good r0 rb0 /\ real r0 rb0 = chunk p row ++ (flat_map (chunk p) rows ++ close_bits p) ++ repeat false j).
+    { destruct (g_align p) eqn:Eal.
+      - destruct (Ha eq_refl) as [Hq Hm].
+        assert (Hmod : (length (r_buf r) mod 8 = q)%nat).
+        { rewrite (buf_real_mod r rb G), Hs, !app_length, !repeat_length.
+          unfold img_bits in Hm. cbn [flat_map] in Hm. rewrite !app_length in Hm. clear - Hq Hm. lia. }
+        rewrite Hmod. destruct (consume_good q r rb G ltac:(lia)) as (rb0 & G0 & R0).
+        { rewrite Hs, app_length, repeat_length. lia. }
+        exists (consume q r), rb0. split; [reflexivity|]. split; [assumption|].
+        rewrite R0, Hs, skipn_app, repeat_length, Nat.sub_diag. rewrite skipn_all2 by (rewrite repeat_length; lia).
+        cbn [skipn app]. rewrite <- !app_assoc. reflexivity.
+      - rewrite (Hna eq_refl) in Hs. exists r, rb. split; [reflexivity|]. split; [assumption|].
+        cbn [repeat app] in Hs. rewrite Hs, <- !app_assoc. reflexivity. }
+    destruct Hskip as (r0 & rb0 & -> & G0 & R0).
+    destruct (row_bits_runs p row Hc Hrow) as (Hr1 & Hr2 & Hr3). cbv zeta in *.
+    set (rs := runs_of true 0 (row_pixels p row)) in *.
+    (* the padding after this row *)
+    set (q' := if g_align p then ((8 - length (row_bits p row) mod 8) mod 8)%nat else 0%nat).
+    assert (Hck : chunk p row = row_bits p row ++ repeat false q').
+    { unfold chunk, q', pad_to_byte. destruct (g_align p); [reflexivity|]. cbn [repeat]. symmetry. apply app_nil_r. }
+    rewrite Hck in R0. unfold row_bits in R0 at 1. fold rs in R0. rewrite <- !app_assoc in R0.
+    destruct (line_row p rs _ r0 rb0 Hc G0 R0 Hr1 Hr2 Hr3) as (m & r1 & rb1 & Lm & G1 & R1 & F1).
+    pose proof (real_le_bits_left r0 rb0 G0) as Hbl. rewrite R0 in Hbl.
+    assert (Hm : (m <= bits_left r0)%nat).
+    { rewrite !app_length in Hbl. rewrite app_length in Lm. lia. }
+    replace (S (S (bits_left r0))) with (m + (S (S (bits_left r0)) - m))%nat by lia. rewrite F1.
+    destruct (row_rebuilt p row Hc Hrow) as [Hpack Hne]. fold rs in Hpack, Hne.
+    destruct (paint p true rs []) as [|x l] eqn:Ep; [congruence|].
+    rewrite (IH (S nrows) fuel r1 rb1 q' j G1).
+    + rewrite Hpack. reflexivity.
+    + rewrite R1. unfold img_bits. rewrite <- !app_assoc. reflexivity.
+    + intros Hal. split.
+      * unfold q'. rewrite Hal. apply Nat.mod_upper_bound. lia.
+      * destruct (Ha Hal) as [_ Hm']. unfold img_bits in *. cbn [flat_map] in Hm'. rewrite !app_length in *.
+        assert (Hp8 : (length (chunk p row) mod 8 = 0)%nat) by (unfold chunk; rewrite Hal; apply pad_to_byte_mod).
+        clear - Hm' Hp8. lia.
+    + intros Hal. unfold q'. rewrite Hal. reflexivity.
+    + assumption.
+    + cbn [length] in Hmax. destruct Hmax as [Hm0|Hm0]; [left; assumption|right; lia].
+    + assumption.
+    + cbn [length] in Hf. lia.
+Qed.
+
+Lemma run_bits_pos white n : (1 <= length (run_bits white n))%nat.
+Proof.
+  unfold run_bits. set (n1 := n mod 2560). assert (Hn1 : n1 < 2560) by (apply N.mod_lt; discriminate).
+  destruct (1792 <=? n1) eqn:E1.
+  - set (i := (n1 - 1792) / 64).
+    assert (Hi2 : 64 * i <= n1 - 1792 < 64 * i + 64) by (subst i; pose proof (N.div_mod (n1 - 1792) 64); pose proof (N.mod_lt (n1 - 1792) 64); lia).
+    replace (64 <=? n1 - (i + 28) * 64) with false by lia.
+    pose proof (proj1 (code_len white _ (term_in white (n1 - (i + 28) * 64) ltac:(lia)))) as L. cbn [fst] in L.
+    rewrite !app_length. lia.
+  - destruct (64 <=? n1) eqn:E2.
+    + pose proof (proj1 (code_len white _ (term_in white (n1 mod 64) ltac:(apply N.mod_lt; discriminate)))) as L. cbn [fst] in L.
+      rewrite !app_length. lia.
+    + pose proof (proj1 (code_len white _ (term_in white n1 ltac:(lia)))) as L. cbn [fst] in L.
+      rewrite !app_length. lia.
+Qed.
+
+Lemma chunk_pos p row : (1 <= length (chunk p row))%nat.
+Proof.
+  assert (H : (1 <= length (row_bits p row))%nat).
+  { unfold row_bits. rewrite app_length.
+    pose proof (runs_of_nonempty (row_pixels p row) true 0) as Hne.
+    destruct (runs_of true 0 (row_pixels p row)) as [|n rs]; [congruence|]. cbn [runs_bits]. rewrite app_length.
+    pose proof (run_bits_pos true n). lia. }
+  unfold chunk, pad_to_byte. destruct (g_align p); [rewrite app_length|]; lia.
+Qed.
+
+Lemma img_bits_rows p rows : (length rows <= length (img_bits p rows))%nat.
+Proof.
+  unfold img_bits. rewrite app_length.
+  assert (H : (length rows <= length (flat_map (chunk p) rows))%nat).
+  { induction rows as [|row rows IH]; [cbn; lia|]. cbn [flat_map length]. rewrite app_length. pose proof (chunk_pos p row). lia. }
+  lia.
+Qed.
+
+Theorem g3_1d_rt_proof p rows :
+  0 < g_cols p -> Forall (row_ok p) rows ->
+  (g_maxrows p = 0%nat \/ (length rows <= g_maxrows p)%nat) ->
+  g3_dec p (g3_enc p (concat rows)) = Ok (concat rows).
+Proof.
+  intros Hc Hok Hmax.
+  assert (Hlb : (0 < line_bytes p)%nat).
+  { unfold line_bytes. assert (1 <= (g_cols p + 7) / 8) by (apply N.div_le_lower_bound; lia). lia. }
+  assert (Hlen : Forall (fun r => length r = line_bytes p) rows) by (eapply Forall_impl; [|exact Hok]; intros r Hr; apply Hr).
+  assert (Henc : g3_enc p (concat rows) = pack_bits (img_bits p rows)).
+  { unfold g3_enc. rewrite (rows_run (line_bytes p) (g3_enc_row p) Hlb rows [] Hlen).
+    destruct (enc_fold p rows [] (fun _ => eq_refl)) as [_ E]. specialize (E (close_bits p)).
+    destruct (rows_fold (g3_enc_row p) [] rows) as [pend' out]. cbn [fst snd rp rows_init] in *.
+    unfold g3_enc_close. fold (close_bits p). rewrite E. reflexivity. }
+  rewrite Henc. unfold g3_dec.
+  set (e := pack_bits (img_bits p rows)).
+  set (r0 := {| r_buf := []; r_rest := e; r_err := None; r_eof := false; r_pad := 0 |}).
+  assert (G0 : good r0 []). { unfold good, r0; cbn. repeat split; auto; discriminate. }
+  assert (R0 : real r0 [] = repeat false 0 ++ img_bits p rows ++ repeat false ((8 - length (img_bits p rows) mod 8) mod 8)).
+  { unfold real, r0. cbn [r_rest app repeat]. subst e. apply pack_bits_spec. }
+  assert (He : (length (img_bits p rows) <= 8 * length e)%nat).
+  { rewrite <- flat_bits_length. subst e. rewrite pack_bits_spec. unfold pad_to_byte. rewrite app_length. lia. }
+  pose proof (img_bits_rows p rows) as Hr.
+  rewrite (g3_rows_rt p Hc rows 0 (S (S (8 * length e))) r0 [] 0 _ G0 R0).
+  - reflexivity.
+  - intros _. split; [lia|]. pose proof (pad_to_byte_mod (img_bits p rows)) as H. unfold pad_to_byte in H.
+    rewrite app_length, repeat_length in H. exact H.
+  - reflexivity.
+  - apply Nat.mod_upper_bound. lia.
+  - cbn [Nat.add]. assumption.
+  - assumption.
+  - lia.
 Qed.
